@@ -1,5 +1,5 @@
-(* C01 -- parsing an indentation-style config is total and lossless.  construct_texts / construct_linenums model CiscoConfParse(...) = ConfigList.bootstrap followed by commit() (Model/Parse.v); keep_flags is the blank_line_keep marking of the banner and macro passes; survives l k = the line is not blank or is kept.  oracle_ok is the only assumption on the banner regexes (a blank line is not a banner start, a delimiter is not a space), checked on every correspondence case. *)
-From Coq Require Import List Arith Bool NArith. Require Import CCP.Lib.PyStr CCP.Model.Links CCP.Model.Parse CCP.Proofs.ParseProofs. Import ListNotations.
+(* C01 -- parsing an indentation-style config is total and lossless.  construct_texts / construct_linenums model CiscoConfParse(...) = ConfigList.bootstrap followed by commit() (Model/Parse.v); keep_flags is the blank_line_keep marking of the banner and macro passes; survives l k = the line is not blank or is kept.  oracle_ok is the only assumption on the banner regexes (a blank line is not a banner start, a delimiter is not a space), checked on every correspondence case.  scan_is_walks: the model's single forward scan marks and re-parents exactly what the code's per-start forward walks do (reachB / reachM / Spec in Proofs/ScanSpecProofs.v). *)
+From Coq Require Import List Arith Bool NArith. Require Import CCP.Lib.PyStr CCP.Model.Links CCP.Model.Parse CCP.Proofs.ParseProofs CCP.Proofs.ScanSpecProofs. Import ListNotations.
 
 Theorem C01_oracle_okb_ok :
   forall l, oracle_okb l = true -> oracle_ok l.
@@ -35,3 +35,8 @@ Theorem C01_commit_idempotent :
   forall o ls, Forall oracle_ok ls -> construct_texts o (construct_texts o ls) = construct_texts o ls.
 Proof. exact commit_idempotent. Qed.
 Print Assumptions C01_commit_idempotent.
+
+Theorem C01_scan_is_walks :
+  forall macro ls j out, nth_error (scan macro idle 0 ls) j = Some out -> Spec macro ls j out.
+Proof. exact scan_is_walks. Qed.
+Print Assumptions C01_scan_is_walks.
